@@ -50,12 +50,12 @@ def pixel_check(ctx):
         meta.append((ops, width, cap, join, ml, s, tx, ty))
     # wide strokes with small turning angles: the join wedge is pixels wide far away from the vertex
     angs = [2.4, 2.2, 1.8, 2.5, 5.0, 1.2, 3.0, 8.0, 0.5]
-    for j in range(6 if ctx.tier == "quick" else 63):
+    for j in range(9 if ctx.tier == "quick" else 63):
         Wb = 400
         ang = math.radians(angs[j % len(angs)] * (1 if (j // len(angs)) % 2 == 0 else -1) * rng.choice([1, 1, -1]))
         ops = ["M " + scene.fpt(60.0, 200.0), "L " + scene.fpt(200.0, 200.0),
                "L " + scene.fpt(200.0 + 140.0 * math.cos(ang), 200.0 + 140.0 * math.sin(ang))]
-        width = rng.choice([200.0, 200.0, 160.0]); cap = "butt"; join = ["bevel", "round", "miter"][j % 3]; ml = 10.0
+        width = rng.choice([200.0, 200.0, 160.0]); cap = ["butt", "round", "square"][(j // 3) % 3]; join = ["bevel", "round", "miter"][j % 3]; ml = 10.0
         style = "STYLE %d %s %s %d 0 %d" % (FB(width), cap, join, FB(ml), FB(0.0))
         scenes.append("scene %d %d %d I %s ; xf %s ; stroke %s %s SRC solid ffffffff 3 %d 1" % (
             n + j, Wb, Wb, " ".join(["00000000"] * (Wb * Wb)), scene.xf_tokens(scene.IDENT), scene.path_tokens(ops, 0), style, FB(1.0)))
@@ -79,8 +79,9 @@ def pixel_check(ctx):
         for y in range(H):
             for x in range(W):
                 if W > 24:
-                    # wide-stroke scenes: every pixel of the band around the joined vertex, nothing else
-                    if abs(x - 200) > 12 or abs(y - 200) < 20:
+                    # wide-stroke scenes: every pixel of the band around the joined vertex, one in sixteen elsewhere
+                    # (round caps and joins of this size show errors of a few percent of the radius as whole pixels)
+                    if (abs(x - 200) > 12 or abs(y - 200) < 20) and ((x % 4) or (y % 4)):
                         continue
                 elif (x * 7 + y * 13 + checked) % stride:
                     continue
